@@ -7,6 +7,7 @@ import KmipGen.Schema
 import Driver.SessionIO
 import KmipModel.Discover
 import KmipModel.Accept
+import KmipModel.Shutdown
 /-
   kvdriver: one request per input line, one reply per output line.  Runs the executable model and the
   executable specifications on the inputs the Go harness also gives to the real code.
@@ -95,6 +96,28 @@ def showAcceptEv : Accept.Ev → String
   | .returnNil => "return:nil"
   | .returnErr => "return:err"
 
+def parseAction : String → Option Shutdown.Action
+  | "A" => some .arrive | "Q" => some .inflight | "R" => some .release | "C" => some .clientClose
+  | "S" => some .shutdown | "L" => some .late | "X" => some .ctxExpire
+  | _ => none
+
+def showSd : Shutdown.SdPc → String
+  | .idle => "idle" | .signalled => "signalled" | .listenerClosed => "listenerClosed" | .waiting => "waiting"
+  | .returnedNil => "nil" | .returnedCtx => "ctx"
+
+def showServe : Shutdown.ServePc → String
+  | .accepting => "serving" | .gotConn _ => "gotConn" | .returned e => if e then "err" else "nil"
+
+def observeSd (σ : Shutdown.State) : String :=
+  s!"sd={showSd σ.sd} serve={showServe σ.serve} started={σ.started} open={σ.running + σ.connClosed} late={σ.lateClosed}"
+
+def runSchedule (acts : List Shutdown.Action) : Option (List Shutdown.State) :=
+  acts.foldlM (fun (states : List Shutdown.State) a =>
+    states.foldlM (fun acc σ =>
+      match Shutdown.runLabels σ a.labels with
+      | some σ' => some (acc ++ Shutdown.settle σ')
+      | none => none) []) [Shutdown.init]
+
 def step (line : String) : String :=
   match tokens line with
   -- enctop <FV tokens of a DynV>: Encoder.Encode(v)
@@ -139,6 +162,14 @@ def step (line : String) : String :=
   | "accept" :: rest =>
     match rest.mapM parseOutcome with
     | some os => "ok " ++ ";".intercalate ((Accept.serveAccepts os).map showAcceptEv)
+    | none => "bad-op"
+  -- shutdown A Q S C …: replay a schedule of harness-level actions on the Serve ∥ Shutdown ∥ sessions LTS
+  | "shutdown" :: rest =>
+    match rest.mapM parseAction with
+    | some acts =>
+      match runSchedule acts with
+      | some states => "ok " ++ "|".intercalate ((states.map observeSd).eraseDups)
+      | none => "invalid"
     | none => "bad-op"
   | ["c18"] => c18Report
   | ["c19"] => c19Report
